@@ -32,6 +32,8 @@ def corpus():
     C = [
         ('rp-create-child', base, ('rp_create', 39, 4, 4, 2)),
         ('rp-reparent', base, ('rp_update', 39, 2, 2, 3)),
+        ('rp-reparent-subtree', base + [('rp_create', 39, 4, 4, 2), ('rp_create', 39, 5, 5, 4)], ('rp_update', 39, 2, 2, 3)),
+        ('rp-unparent-subtree', base + [('rp_create', 39, 4, 4, 2), ('rp_create', 39, 5, 5, 4)], ('rp_update', 39, 2, 2, None)),
         ('rp-delete', base, ('rp_delete', 3)),
         ('rp-delete-in-use', base, ('rp_delete', 2)),
         ('inv-set', base, ('inv_set', 39, 1, 3, [inv(0, 16), inv(1, 64)])),
